@@ -50,7 +50,7 @@ Definition ideal_range (k : kind) (cs : list lrec) (a b : akey) (ans : nat -> bo
     | Gt => ideal_seq k (filter (in_range ek sk) cs) ans
     | Lt => ideal_seq k (filter (in_range sk ek) cs) ans
     end
-  | KCompound _ =>
+  | KCompound _ | KCodec _ _ =>
     match cs with
     | [] => OSeq [] 0
     | _ =>
